@@ -58,6 +58,7 @@ type sysOpts struct {
 	EmitStatus  bool `json:"emitStatus,omitempty"`
 	Foreground  bool `json:"foreground,omitempty"` // propagation policy Foreground instead of the default Background
 	StatusAll   bool `json:"statusAll,omitempty"`  // inventory client built with StatusPolicyAll
+	PropDefault bool `json:"propDefault,omitempty"` // propagation policy not set by the caller (the library defaults it to Background)
 }
 
 // cancel: "" none | "before-sync" | "wait:<n>:<j>" (during the n-th wait group after j status deliveries) | "mut:<k>" (while mutating request k is in flight)
@@ -594,6 +595,8 @@ func runOne(c *fakecluster.Cluster, run sysRun) (out runOut) {
 	prop := metav1.DeletePropagationBackground
 	if run.Opts.Foreground {
 		prop = metav1.DeletePropagationForeground
+	} else if run.Opts.PropDefault {
+		prop = "" // left to the library's default, which is Background
 	}
 
 	var ch <-chan event.Event
